@@ -62,17 +62,13 @@ func lookupCriterionRule(c *Ctx, fname string) {
 		// the functional form: i := slices.IndexFunc(coll, func(e) bool { return <criterion> });
 		// return coll[i] — the criterion is the literal's result expression
 		var funcCrit []ast.Expr
-		for _, cs := range callsIn(d.pkg, d.fd.Body) {
-			if cs.callee.FullName() == "slices.IndexFunc" && len(cs.call.Args) == 2 {
-				if lit, isLit := cs.call.Args[1].(*ast.FuncLit); isLit {
-					ast.Inspect(lit.Body, func(m ast.Node) bool {
-						if rs, isRet := m.(*ast.ReturnStmt); isRet && len(rs.Results) == 1 {
-							funcCrit = append(funcCrit, rs.Results[0])
-						}
-						return true
-					})
+		for _, lit := range filterPredicates(c, d) {
+			ast.Inspect(lit.Body, func(m ast.Node) bool {
+				if rs, isRet := m.(*ast.ReturnStmt); isRet && len(rs.Results) == 1 {
+					funcCrit = append(funcCrit, rs.Results[0])
 				}
-			}
+				return true
+			})
 		}
 		// the statement that yields the element: return of a non-nil value or append to the result
 		var yields []ast.Node
@@ -313,39 +309,34 @@ func identifierLookup(c *Ctx) {
 					lookup, valVar, okVar = ix, objOf(d.pkg, ini.Lhs[0]), objOf(d.pkg, ini.Lhs[1])
 				}
 			}
-			isEntry := func(e ast.Expr) (bool, bool) { // (is the Identifiers entry, keyed by the resolved type)
-				if ix, isIx := e.(*ast.IndexExpr); isIx && strings.HasSuffix(normText(types.ExprString(ix.X)), ".Identifiers") {
-					return true, mentions(ix.Index, idObj)
-				}
-				if id, isId := e.(*ast.Ident); isId && valVar != nil && objOf(d.pkg, id) == valVar && lookup != nil && strings.HasSuffix(normText(types.ExprString(lookup.X)), ".Identifiers") {
-					return true, mentions(lookup.Index, idObj)
-				}
-				return false, false
-			}
-			for _, cj := range conjuncts(ifs.Cond) {
-				if id, isId := cj.(*ast.Ident); isId && okVar != nil && objOf(d.pkg, id) == okVar {
-					okPresent = true
-				}
-				be, isBe := cj.(*ast.BinaryExpr)
-				if !isBe {
-					continue
-				}
-				if be.Op == token.EQL {
-					for _, pair := range [][2]ast.Expr{{be.X, be.Y}, {be.Y, be.X}} {
-						if ent, keyed := isEntry(pair[0]); ent && objOf(d.pkg, pair[1]) == pVal && pVal != nil {
-							okCmp = true
-							okType = okType || keyed
-						}
-					}
-				}
-				// `v != ""` rules the empty value out as well
-				if subj, empty, okE := emptinessTest(c, be); okE && !empty && pVal != nil && subj == pVal.Name() {
-					okPresent = true
-				}
-			}
+			evalIdentifierConds(c, d, conjuncts(ifs.Cond), lookup, valVar, okVar, idObj, pVal, mentions, &okCmp, &okType, &okPresent)
 		}
 		return true
 	})
+	// the functional form: the criterion is the result of the predicate handed to a filter helper
+	for _, lit := range filterPredicates(c, d) {
+		var lookup *ast.IndexExpr
+		var valVar, okVar types.Object
+		ast.Inspect(lit.Body, func(n ast.Node) bool {
+			if as, ok := n.(*ast.AssignStmt); ok && len(as.Lhs) == 2 && len(as.Rhs) == 1 {
+				if ix, isIx := as.Rhs[0].(*ast.IndexExpr); isIx {
+					lookup, valVar, okVar = ix, objOf(d.pkg, as.Lhs[0]), objOf(d.pkg, as.Lhs[1])
+				}
+			}
+			return true
+		})
+		ast.Inspect(lit.Body, func(n ast.Node) bool {
+			rs, ok := n.(*ast.ReturnStmt)
+			if !ok || len(rs.Results) != 1 {
+				return true
+			}
+			if _, isC := constOf(d.pkg, rs.Results[0]); isC {
+				return true
+			}
+			evalIdentifierConds(c, d, conjuncts(rs.Results[0]), lookup, valVar, okVar, idObj, pVal, mentions, &okCmp, &okType, &okPresent)
+			return true
+		})
+	}
 	c.check(okCmp && okType && fromParam, R, fname+"#Identifiers", c.P.Pos(d.fd.Pos()), "element yielded only when Identifiers[type(t)] == v",
 		fmt.Sprintf("GetNodesByIdentifier does not yield exactly under `Identifiers[<resolved type>] == <value>` with the type resolved from the type parameter (comparison %v, keyed by the resolved type %v, resolved from the parameter %v)", okCmp, okType, fromParam))
 	c.check(okPresent, R, fname+"#present", c.P.Pos(d.fd.Pos()), "only an entry that is present can match",
@@ -1079,4 +1070,88 @@ func purlFallbackOnlyWithoutHashMatches(c *Ctx) {
 		return true
 	})
 	c.floor(R, 3, "single hash match, purl fallback, purl tie-break")
+}
+
+// evalIdentifierConds reads the conjuncts of a yield condition of GetNodesByIdentifier.
+func evalIdentifierConds(c *Ctx, d *declInfo, conds []ast.Expr, lookup *ast.IndexExpr, valVar, okVar, idObj, pVal types.Object,
+	mentions func(ast.Expr, types.Object) bool, okCmp, okType, okPresent *bool) {
+	isEntry := func(e ast.Expr) (bool, bool) {
+		if ix, isIx := e.(*ast.IndexExpr); isIx && strings.HasSuffix(normText(types.ExprString(ix.X)), ".Identifiers") {
+			return true, mentions(ix.Index, idObj)
+		}
+		if id, isId := e.(*ast.Ident); isId && valVar != nil && objOf(d.pkg, id) == valVar && lookup != nil && strings.HasSuffix(normText(types.ExprString(lookup.X)), ".Identifiers") {
+			return true, mentions(lookup.Index, idObj)
+		}
+		return false, false
+	}
+	for _, cj := range conds {
+		if id, isId := cj.(*ast.Ident); isId && okVar != nil && objOf(d.pkg, id) == okVar {
+			*okPresent = true
+		}
+		be, isBe := cj.(*ast.BinaryExpr)
+		if !isBe {
+			continue
+		}
+		if be.Op == token.EQL {
+			for _, pair := range [][2]ast.Expr{{be.X, be.Y}, {be.Y, be.X}} {
+				if ent, keyed := isEntry(pair[0]); ent && objOf(d.pkg, pair[1]) == pVal && pVal != nil {
+					*okCmp = true
+					*okType = *okType || keyed
+				}
+			}
+		}
+		if subj, empty, okE := emptinessTest(c, be); okE && !empty && pVal != nil && subj == pVal.Name() {
+			*okPresent = true
+		}
+	}
+}
+
+// filterPredicates: the function literals d hands to slices.IndexFunc or to a filter-shaped generic
+// helper of the module (a loop over its slice parameter that appends the element under keep(v)).
+func filterPredicates(c *Ctx, d *declInfo) []*ast.FuncLit {
+	var out []*ast.FuncLit
+	for _, cs := range callsIn(d.pkg, d.fd.Body) {
+		okHelper := cs.callee.FullName() == "slices.IndexFunc"
+		if !okHelper && cs.callee.Pkg() != nil && strings.HasPrefix(cs.callee.Pkg().Path(), modPath+"/") {
+			f := cs.callee
+			if o := f.Origin(); o != nil {
+				f = o
+			}
+			if hfd, hpk := c.P.FuncDecl(objName(f)); hfd != nil && hfd.Body != nil {
+				ast.Inspect(hfd.Body, func(n ast.Node) bool {
+					rs, ok := n.(*ast.RangeStmt)
+					if !ok || rs.Value == nil {
+						return true
+					}
+					for _, st := range rs.Body.List {
+						ifs, isIf := st.(*ast.IfStmt)
+						if !isIf {
+							continue
+						}
+						ce, isCall := ifs.Cond.(*ast.CallExpr)
+						if !isCall || len(ce.Args) != 1 || objOfInfo(hpk, ce.Args[0]) != objOfInfo(hpk, rs.Value) {
+							continue
+						}
+						if id, isId := ce.Fun.(*ast.Ident); isId {
+							if pv, isVar := hpk.TypesInfo.Uses[id].(*types.Var); isVar {
+								if _, isFn := pv.Type().Underlying().(*types.Signature); isFn {
+									okHelper = true
+								}
+							}
+						}
+					}
+					return true
+				})
+			}
+		}
+		if !okHelper {
+			continue
+		}
+		for _, a := range cs.call.Args {
+			if lit, isLit := a.(*ast.FuncLit); isLit {
+				out = append(out, lit)
+			}
+		}
+	}
+	return out
 }
